@@ -150,7 +150,7 @@ theorem runCmd_sessions (sv : Server) (sid : Nat) (c : Cmd) :
     | unparamRouteF => exact (updSess_own sv sid [] _ (by intro _; split <;> exact ⟨rfl, rfl, rfl⟩)).2
     | getparams => simp only [runCmd, hs]
     | ins key before vals => simp only [runCmd, insertOrdered, hs]
-    | reorder key before => simp only [runCmd, Muscle.Reflector.reorder, hs]
+    | reorder key before => simp only [runCmd, Muscle.Reflector.reorder, Muscle.Reflector.reorderCore, hs]
     | send tag keys => simp only [runCmd, sendMsg, hs]
     | ping tag => exact ((deliver_notify sv sid _).onlyOwn sid []).2
 
